@@ -107,6 +107,8 @@ pub fn instantiate_msg(w: &[u32; WORLD_WORDS], p: &Profile) -> Value {
             }
             12 => {
                 m.insert("convertible_base_denoms".into(), json!([]));
+                // a name that is not empty, only unusual: coherent
+                m.insert("name".into(), json!([" ", "\t", "a b", "Ünïcode"][pick(sel, 4)]));
             }
             13 => {
                 m.insert("ask_fee_rate".into(), json!("-0.01"));
@@ -446,6 +448,27 @@ pub fn run_migration(prop: Prop, p: &Profile, tape: &Tape) -> Runner {
         Step::RawVersion { raw: "{not json".into() }
     };
     let msg = migrate_msg(w, &cfg, prop == Prop::C14);
+    // the published 1.0.0 left approved convertible asks whose recorded approver amount is larger
+    // than their size (a partial reject did not reduce it): migration must leave them alone too
+    if prop == Prop::C14 && gate(w[30], 250) && !cfg.convertibles.is_empty() && !cfg.approvers.is_empty() && cfg.convertibles[0] != cfg.base {
+        let size = cfg.increment.max(1) * (1 + (w[30] % 5) as u128);
+        r.step(Step::SeedAsk {
+            ask: wire::Ask {
+                id: "a1b2c3d4-0000-4000-8000-0000000fe001".into(),
+                owner: POOL[pick(w[30].rotate_left(3), 8)].to_string(),
+                class: wire::AskClass::Ready {
+                    approver: cfg.approvers[0].clone(),
+                    denom: cfg.base.clone(),
+                    amount: size + cfg.increment.max(1) * (1 + (w[30] >> 8) as u128 % 3),
+                },
+                base: cfg.convertibles[0].clone(),
+                quote: gen::at(&cfg.quotes, 0, "quote1"),
+                price: "1".into(),
+                size,
+            },
+        });
+        r.judge.label("stale-approved-ask-from-1.0.0");
+    }
     // instances created by early versions carry a bound name in their stored configuration
     if gate(w[31], 250) {
         r.step(Step::SetBindName { bind_name: "ats.pb".into() });
